@@ -220,6 +220,17 @@ func walkerInputs() []string {
 		"entity Foo {\n  key fooId key:id62\n}\n",
 		"object Foo {\n  field a array {\n  }\n}\n",
 		"object Foo {\n  field a map {\n    itemSchema.string.format = \"x\"\n    keySchema string\n  }\n}\n",
+		// names that are not protobuf identifiers (the lexer accepts unicode letters): parse and walk fine, rejected by
+		// the converter with a position since /repo c71d8d9
+		"object Élan {\n  field name string\n}\n",
+		"object Foo {\n  field naïve string\n}\n",
+		"enum Kind {\n  option Ä\n  option B\n}\n",
+		"oneof Ch {\n  option naïve object {\n  }\n}\n",
+		"service Fé {\n  basePath = \"/foo\"\n  method Bär {\n    httpMethod = \"GET\"\n    httpPath = \"/bar\"\n    request {\n    }\n  }\n}\n",
+		"entity Élan {\n  key elanId key:id62 {\n    primary = true\n  }\n  status ACTIVE\n  event Created {\n  }\n}\n",
+		"object Foo {\n  field f\n}\n",
+		"object Foo {\n  field f !\n}\n",
+		"topic Foo\n",
 		"object {\n}\n",
 		"object Foo Bar {\n}\n",
 		"object ! Foo {\n}\n",
